@@ -211,6 +211,8 @@ pub struct OpGen<'a> {
     pub in_use: Vec<u32>,
     /// 3D: pairs of darts whose faces can be 3-sewn
     pub mirror: Vec<(u32, u32)>,
+    /// probability that a topology edit is chosen valid on the model state
+    pub p_valid: f64,
 }
 
 impl<'a> OpGen<'a> {
@@ -241,7 +243,7 @@ impl<'a> OpGen<'a> {
             }
         }
         let mirror = crate::gen3::mirror_pairs(s);
-        OpGen { s, hot, in_use, mirror }
+        OpGen { s, hot, in_use, mirror, p_valid: 0.6 }
     }
 
     pub fn dart(&self, rng: &mut Rng) -> u32 {
@@ -265,7 +267,7 @@ impl<'a> OpGen<'a> {
         let s = self.s;
         let dim = s.dim;
         let i = 1 + rng.below(dim as usize) as u8;
-        let valid = rng.chance(0.6);
+        let valid = rng.chance(self.p_valid);
         let sew = rng.chance(0.6);
         match rng.below(2) {
             0 if i == 3 && valid && !self.mirror.is_empty() => {
@@ -303,8 +305,9 @@ impl<'a> OpGen<'a> {
         let d = self.dart(rng);
         let kinds = mask_kinds(s.kinds);
         let cell = |okind: u8, d: u32| if rng_chance_fixed(d, 7) { d } else { s.cell_id(okind_policy(okind), d) };
-        let c = rng.below(10);
+        let c = rng.below(11);
         match c {
+            10 => Op::Audit { kinds: s.kinds, data: rng.chance(0.5) },
             0 => Op::ReadV { id: cell(0, d) },
             1 => {
                 *uniq += 1;
